@@ -150,7 +150,15 @@ class Prov:
                 if r and (lo < r[0] or hi > r[1]):
                     lo, hi = max(lo, r[0]), min(hi, r[1])
                 return (lo, hi, tags)
-            if sh in ("branch", "unwrap", "from", "into", "clone", "to_owned", "unwrap_or", "unwrap_or_default", "ok_or", "expect", "deref", "unwrap_or_else"):
+            if sh in ("try_from", "try_into") and len(t[2]) == 1:
+                # a checked conversion: on its success arm the value is the source value (and fits the target)
+                lo, hi, tags = self.of(t[2][0], None, depth + 1)
+                r = ty_range(ty)
+                if r:
+                    lo, hi = max(lo, r[0]), min(hi, r[1])
+                return (lo, hi, tags)
+            if sh in ("branch", "unwrap", "from", "into", "clone", "to_owned", "unwrap_or", "unwrap_or_default", "ok_or", "expect", "deref", "unwrap_or_else",
+                      "map_err", "ok", "ok_or_else"):
                 if t[2]:
                     return self.of(t[2][0], ty, depth + 1)
             tags = set()
@@ -396,6 +404,22 @@ def analyse_body(facts, rep, b, is_parser, rules, reach=None):
                 for x in walk(term):
                     if x[0] == "const" and isinstance(x[1], str):
                         msg = x[1]
+            is_assert = msg.startswith("assertion") or nm.endswith("assert_failed") or nm.endswith("assert_failed_inner")
+            if is_assert:
+                # an assertion states an invariant: proven from the dominating comparisons -> fine; on a value read
+                # from the input and not proven -> a panic an input can reach; otherwise not decided
+                if cd is None:
+                    cd = control_deps(b)
+                verdict, tags = assertion_status(b, bb, cd, P)
+                if verdict:
+                    rep.ok(R1, {"fn": b.name, "assertion": msg[:60], "discharged": "follows from dominating comparisons"})
+                    rep.count("assertions_discharged")
+                elif "input" in tags and is_parser:
+                    # (no witness input is at hand: the relation may hold by construction of the values compared)
+                    rep.inconc(R1, "%s: the assertion (%s) is about values taken from the input and was not proven from the checks before it" % (b.name.rsplit("::", 1)[-1], (msg or nm)[:70]))
+                else:
+                    rep.inconc(R1, "%s: the assertion (%s) states an invariant that was not proven" % (b.name.rsplit("::", 1)[-1], (msg or nm)[:70]))
+                continue
             rep.violation(R1, b.name, "panic:%s" % (msg or sh)[:40], "%s reaches an explicit panic (%s) on a branch controlled by its input" % (b.name, msg or nm), where)
             continue
         if sh in ("unwrap", "expect") and (nm.startswith("std::option::Option") or nm.startswith("std::result::Result")):
@@ -424,10 +448,15 @@ def analyse_body(facts, rep, b, is_parser, rules, reach=None):
                     cd = control_deps(b)
                 if bounded_by_len(b, bb, term, cd, P) or capped_by_len(term, P):
                     rep.ok(R3, {"fn": b.name, "alloc": fmt(norm(term))[:60], "bounded": True})
+                elif unresolved_len_guard(b, bb, cd):
+                    rep.inconc(R3, "%s allocates %s after a comparison with the buffer length whose other side is a value this analysis did not resolve" % (b.name.rsplit("::", 1)[-1], fmt(norm(term))[:60]))
                 else:
                     rep.violation(R3, b.name, "alloc:%s" % fmt(norm(term))[:50], "%s allocates %s bytes/elements taken from the input (up to %s) before checking it against the buffer" % (b.name.rsplit("::", 1)[-1], fmt(norm(term))[:70], hexs(hi)), where)
             elif "input" in tags:
                 rep.ok(R3, {"fn": b.name, "alloc": fmt(norm(term))[:60], "max": hi})
+            elif "param" in tags and hi > (1 << 20) and (bounded_by_len(b, bb, term, cd or control_deps(b), P) or capped_by_len(term, P)):
+                # the callee itself compares the request with what the container holds before allocating
+                rep.ok(R3, {"fn": b.name, "alloc": fmt(norm(term))[:60], "bounded": "in the callee"})
             elif "param" in tags and hi > (1 << 20):
                 # sized by a parameter: follow it to the callers (one level) inside the reachable set
                 pidx = [x[1] for x in walk(term) if x[0] == "param"]
@@ -503,6 +532,9 @@ def analyse_body(facts, rep, b, is_parser, rules, reach=None):
                     cd = control_deps(b)
                 if overflow_guarded(b, bb, op, a, c, aty, cd, P):
                     rep.count("overflow_discharged_by_guard")
+                    continue
+                if unresolved_len_guard(b, bb, cd):
+                    rep.inconc(R2, "%s computes %s on input-derived values after a comparison with the buffer length whose other side was not resolved" % (b.name.rsplit("::", 1)[-1], op))
                     continue
                 if "input" in tags:
                     rep.violation(R2, b.name, "overflow:%s:%s" % (op, fmt(norm(a))[:30] + "," + fmt(norm(c))[:30]),
@@ -612,6 +644,84 @@ def unwrap_is_guarded(b, bb, term, cd):
         if term_[0] == "discr" and norm(term_[1]) == nt:
             ok_variant = (vals == (0,) and not neg) if "Result" in str(term_[2] if len(term_) > 2 else "") else None
             return True
+    return False
+
+
+def assertion_status(b, bb, cd, P):
+    """(proven, provenance tags of the asserted condition) for the panic call ending block bb."""
+    tags = set()
+    proven = None
+    # the blocks that branch into the panic block (one per conjunct of the asserted condition)
+    srcs = [bi for bi in range(len(b.blocks)) if b.blocks[bi]["term"]["k"] == "switch" and bb in b.succs(bi)]
+    # the panic call may sit one or two straight-line blocks after the branch (message formatting)
+    if not srcs:
+        front = {bb}
+        for _ in range(4):
+            prev = set(bi for bi in range(len(b.blocks)) if set(b.succs(bi)) & front and not b.blocks[bi]["cleanup"])
+            sw = [bi for bi in prev if b.blocks[bi]["term"]["k"] == "switch"]
+            if sw:
+                srcs = sw
+                break
+            front = prev
+    for a in srcs:
+        tt = b.blocks[a]["term"]
+        d = b.term_of_operand(tt["d"])
+        tags |= set(P.tags_of(d))
+        # which way leads to the panic?
+        into = [s_ for s_ in b.succs(a) if s_ == bb or b.dominates(s_, bb)]
+        if len(into) != 1:
+            proven = False
+            continue
+        truth = None
+        for v_, tb in tt["targets"]:
+            if tb == into[0]:
+                truth = bool(v_)
+        if truth is None and tt["otherwise"] == into[0]:
+            truth = not any(v_ == 1 for v_, tb in tt["targets"]) if tt.get("dty") == "bool" else None
+        t = d
+        while t[0] == "un" and t[1] == "Not":
+            t = t[2]
+            truth = (not truth) if truth is not None else None
+        if truth is None or t[0] != "bin" or t[1] not in ("Lt", "Le", "Gt", "Ge"):
+            proven = False
+            continue
+        # the panic is reached when (t == truth); the assertion is the opposite comparison
+        op = t[1] if not truth else {"Lt": "Ge", "Le": "Gt", "Gt": "Le", "Ge": "Lt"}[t[1]]
+        try:
+            l, r = lin(b, t[2], P, a, cd), lin(b, t[3], P, a, cd)
+        except Exception:
+            l = r = None
+        if l is None or r is None:
+            proven = False
+            continue
+        goal = {"Ge": _lin_add(l, r, -1), "Gt": _lin_add(_lin_add(l, r, -1), ({}, 1), -1),
+                "Le": _lin_add(r, l, -1), "Lt": _lin_add(_lin_add(r, l, -1), ({}, 1), -1)}[op]
+        try:
+            ok = entails(b, a, cd, P, goal)
+        except Exception:
+            ok = False
+        proven = ok if proven is None else (proven and ok)
+    return bool(proven), tags
+
+
+def unresolved_len_guard(b, bb, cd):
+    """a dominating comparison with a length whose other side is a local with several definitions (the result of an
+    expanded helper, a value assembled on several paths): it may well bound the value in question.  Likewise a
+    comparison with a length made inside a closure of this function (`.filter(|v| v + K <= bytes.len())`)."""
+    try:
+        for cb in b.facts.closures_of(b):
+            for bi, si, st in cb.stmts():
+                if st["k"] == "assign" and st["rv"]["k"] == "bin" and st["rv"]["op"] in ("Lt", "Le", "Gt", "Ge"):
+                    t_ = cb.term_of_rvalue(st["rv"])
+                    if any(x[0] == "call" and x[1].rsplit("::", 1)[-1] == "len" for x in walk(t_)) or any(x[0] == "un" and x[1] == "PtrMetadata" for x in walk(t_)):
+                        return True
+    except Exception:
+        pass
+    for op, lhs, rhs in dominating_bounds(b, bb, cd):
+        for side, other in ((lhs, rhs), (rhs, lhs)):
+            is_len = any(x[0] == "call" and x[1].rsplit("::", 1)[-1] in ("len", "size") for x in walk(other))
+            if is_len and any(x[0] == "var" for x in walk(side)):
+                return True
     return False
 
 
